@@ -95,6 +95,75 @@ func runC15(c *Ctx, pr *PropertyRun) {
 			capt.Unresolved("the capture table has fewer than 20 rows")
 		}
 	}
+	// depth accounting: when the capture recurses through a helper that
+	// carries a depth counter, every recursive call passes exactly the nesting
+	// level of the element it captures (siblings do not add up)
+	if um != nil && raw != nil {
+		if helper := depthHelper(c, um); helper != nil {
+			spec := c15Capture(c, helper, raw, nTok)
+			spec.Name = "capture depth accounting"
+			baseSetup := spec.Setup
+			var levels []string
+			spec.Setup = func(in *Interp) {
+				baseSetup(in)
+				levels = nil
+				in.Models = append(in.Models, func(in *Interp, site ssa.CallInstruction, name string, args []Val) (Val, bool) {
+					if name == fullFnName(helper) && len(args) == len(helper.Params) {
+						d, _ := in.concretise(args[len(args)-1])
+						levels = append(levels, fmt.Sprintf("%s@%d", keyOf(args[2]), d))
+					}
+					return nil, false
+				})
+			}
+			baseArgs := spec.Args
+			spec.Args = func(in *Interp) []Val { return append(baseArgs(in), kInt(0)) }
+			spec.Observe = func(in *Interp, res Val, pan *panicOutcome) string {
+				if pan != nil {
+					return "panic"
+				}
+				return strings.Join(levels, " ")
+			}
+			spec.Check = func(env *OracleEnv, obs *Observation) (bool, string, bool) {
+				// reference: level of every start element in the chosen stream
+				pos := 0
+				var want []string
+				var parse func(level int) bool
+				parse = func(level int) bool {
+					for {
+						i := pos
+						pos++
+						k := "EndElement"
+						if i < nTok {
+							labels := append(append([]string{}, xmlKinds...), "error")
+							k = labels[env.ch.choose(fmt.Sprintf("tok#%d", i), len(labels), func(j int) string { return labels[j] })]
+						}
+						switch k {
+						case "error":
+							return false
+						case "EndElement":
+							return true
+						case "StartElement":
+							want = append(want, fmt.Sprintf("StartElement:%d@%d", i, level+1))
+							if !parse(level + 1) {
+								return false
+							}
+						}
+					}
+				}
+				parse(0)
+				got := strings.Join(levels, " ")
+				if got != strings.Join(want, " ") {
+					return false, "each nested element captured at its own nesting level: " + strings.Join(want, " "), true
+				}
+				return true, "", true
+			}
+			res := runDTX(c, spec)
+			reportDTX(c, capt, spec, res, "depth")
+			capt.Role("depth-accounting-table")
+		} else {
+			capt.Note("the capture does not recurse through a helper with a depth counter: depth accounting not applicable")
+		}
+	}
 	mx := p.MustFunc(rep, pkgInternal, "(*RawXMLValue).MarshalXML")
 	trd := p.MustFunc(rep, pkgInternal, "(*RawXMLValue).TokenReader")
 	tokFn := p.MustFunc(rep, pkgInternal, "(*rawXMLValueReader).Token")
@@ -415,4 +484,30 @@ func c15Reader(c *Ctx, trd, tokFn *ssa.Function, raw *types.Named) DTXSpec {
 			return []string{strings.Join(append(append([]string{}, want...), "EOF"), " ")}, true
 		},
 	}
+}
+
+// depthHelper: the function the capture delegates to that takes the decoder,
+// the start element and an integer (the depth counter), and calls itself.
+func depthHelper(c *Ctx, um *ssa.Function) *ssa.Function {
+	var found *ssa.Function
+	eachCall(um, func(site ssa.CallInstruction) {
+		g := site.Common().StaticCallee()
+		if g == nil || !c.P.InModule(g) || len(g.Params) < 2 {
+			return
+		}
+		last := g.Params[len(g.Params)-1]
+		if b, ok := last.Type().Underlying().(*types.Basic); !ok || b.Info()&types.IsInteger == 0 {
+			return
+		}
+		self := false
+		eachCall(g, func(s2 ssa.CallInstruction) {
+			if s2.Common().StaticCallee() == g {
+				self = true
+			}
+		})
+		if self {
+			found = g
+		}
+	})
+	return found
 }
